@@ -7,7 +7,7 @@
    comb / fuel / the script [evs] quantify over every reader behaviour (arbitrary
    chunking, 0-byte reads, an error at any offset, data together with EOF/error).
    [matches_desc H dg sz bs] = length bs = sz /\ dg = alg:H alg bs /\ dg is a valid digest. *)
-From Oras Require Import Base.Prelude Generated.GC05 Model.Verify Proofs.Verify.
+From Oras Require Import Base.Prelude Generated.GC05 Model.Verify Proofs.Verify Proofs.VerifyComplete.
 
 (* ReadAll hands back data only when length and digest match and the reader held
    nothing else *)
@@ -19,6 +19,40 @@ Theorem C05_readall :
     (b_lim src = None -> stream (b_evs src) = buf).
 Proof. exact read_all_sound. Qed.
 Print Assumptions C05_readall.
+
+(* conversely: every well-behaved reader of exactly the right bytes (any chunking, any
+   0-byte reads, EOF with or after the last chunk) is accepted, and a memory store
+   that does not have the descriptor yet stores it *)
+Theorem C05_readall_complete :
+  forall (H : str -> str -> str) comb fixed fuel evs dg,
+    nfail evs = 0%nat -> valid_digest dg = true -> dg = digest_of H (alg_of dg) (stream evs) ->
+    (ev_weight evs < fuel)%nat ->
+    fst (read_all H comb fixed fuel (mkBase evs None) dg (Z.of_nat (length (stream evs))))
+    = (None, stream evs).
+Proof. exact read_all_complete. Qed.
+Print Assumptions C05_readall_complete.
+
+Theorem C05_push_memory_complete :
+  forall (H : str -> str -> str) comb fixed fuel m d evs,
+    mem_get m d = None -> nfail evs = 0%nat -> valid_digest (d_dg d) = true ->
+    d_dg d = digest_of H (alg_of (d_dg d)) (stream evs) -> d_sz d = Z.of_nat (length (stream evs)) ->
+    (ev_weight evs < fuel)%nat ->
+    mem_push H comb fixed fuel m d (mkBase evs None) = (None, (d, stream evs) :: m).
+Proof. exact mem_push_complete. Qed.
+Print Assumptions C05_push_memory_complete.
+
+(* FetchAll = Fetch then ReadAll: whatever bytes a store's Fetch serves (even a blob
+   corrupted on disk), FetchAll returns them only if they match the descriptor *)
+Theorem C05_fetchall :
+  forall (H : str -> str -> str) comb fixed fuel served dg sz buf v,
+    read_all H comb fixed fuel (mkBase [Data served] None) dg sz = ((None, buf), v) ->
+    buf = served /\ matches_desc H dg sz served.
+Proof.
+  intros H comb fixed fuel served dg sz buf v E.
+  destruct (read_all_sound H comb fixed fuel _ dg sz buf v E) as (A & _ & C).
+  specialize (C eq_refl). simpl in C. rewrite app_nil_r in C. subst buf. split; [reflexivity|exact A].
+Qed.
+Print Assumptions C05_fetchall.
 
 (* any use of a VerifyReader (any sequence of Read(k) and Verify calls): once
    Verify returns nil the bytes read are exactly the descriptor's, the source is
